@@ -108,6 +108,20 @@ def run(ctx):
         else:
             raise Infra("harness hist-random failed (exit %d):\n%s" % (i2["_rc"], err[-3000:]))
     ok2, rej2 = ctx.validate_traces(tr2, "TraceHistory", cfg) if os.path.getsize(tr2) > 0 else (0, [])
+    # (D) the search command itself: whole sessions of the real binary in one home directory (searches that find something,
+    # nothing, are rejected or repeated, interleaved with the history views), validated against the same specification
+    ctx.wtf()
+    tr3 = os.path.join(ctx.work, "hist-sessions.ndjson")
+    i3 = ctx.run_vh(["session-run", "-out", tr3, "-sessions", 6 if q else 80, "-len", 14 if q else 40], timeout=3000)
+    import x02
+    ok3, rej3 = ctx.validate_traces(tr3, "TraceSession", x02.TRACE_CFG, max_rejects=4)
+    for x in rej3:
+        evs, at = x["trace"], x["at"]
+        ev = json.loads(evs[at - 1])
+        ctx.violation("C16|cli-session|%s" % ev.get("op"), "session of the real binary rejected at command %d (%s): %s" % (at, x["why"], evs[at - 1][:400]),
+                      {"rejected_at": at, "events": [json.loads(e) for e in evs[:at]]}, name="session")
+    ok2 += ok3
+    ctx.cov["cli_sessions"] = i3.get("sessions")
     report(ctx, rej2, "random")
     samples = [{"init": tours[i][0], "tour": tours[i][1]} for i in range(0, len(tours), max(1, len(tours) // 3))][:3]
     cov = {"states": r["distinct"], "transitions": r["generated"], "traces_validated_against_impl": ok1 + ok2,
